@@ -785,6 +785,45 @@ def _record_fields(P: Program, e: ast.expr) -> Optional[ast.expr]:
 _RECS: List = [()]
 
 
+def _dispatch_site(f: Func, call: ast.Call, parents_from=None):
+    """`w = D.get(E)` immediately followed by `if w is not None: BODY` (no else) where w is read nowhere else before its next binding: (assignment, guard)"""
+    par = {}
+    for x in ast.walk(parents_from if parents_from is not None else f.node):
+        for ch in ast.iter_child_nodes(x):
+            par[id(ch)] = x
+    asg = par.get(id(call))
+    if not (isinstance(asg, ast.Assign) and asg.value is call and len(asg.targets) == 1 and isinstance(asg.targets[0], ast.Name)):
+        return None
+    E = call.args[0]
+    if not (isinstance(E, (ast.Name, ast.Constant)) or norm.attr_chain(E) is not None):
+        return None
+    w = asg.targets[0].id
+    owner = par.get(id(asg))
+    for _fld, blk in _block_lists(owner):
+        for i, st in enumerate(blk):
+            if st is asg and i + 1 < len(blk):
+                gd = blk[i + 1]
+                if isinstance(gd, ast.If) and not gd.orelse and isinstance(gd.test, ast.Compare) and len(gd.test.ops) == 1 and isinstance(gd.test.ops[0], ast.IsNot) \
+                        and norm.is_name(gd.test.left, w) and isinstance(gd.test.comparators[0], ast.Constant) and gd.test.comparators[0].value is None:
+                    # w is not read after the guard before it is bound again: every load of w lies in a guard that directly follows a binding of w
+                    root = parents_from if parents_from is not None else f.node
+                    for x in ast.walk(root):
+                        if isinstance(x, ast.Name) and x.id == w and isinstance(x.ctx, ast.Load):
+                            y = x
+                            inside = False
+                            while id(y) in par:
+                                y = par[id(y)]
+                                if isinstance(y, ast.If) and isinstance(y.test, ast.Compare) and norm.is_name(y.test.left, w):
+                                    inside = True
+                                    break
+                            if not inside:
+                                return None
+                    if any(isinstance(x, ast.Name) and x.id == w and isinstance(x.ctx, (ast.Store, ast.Del)) for b_ in gd.body for x in ast.walk(b_)):
+                        return None
+                    return asg, gd
+    return None
+
+
 def _local_dict_views(f: Func) -> Func:
     """A local `D = {k1: v1, ..}` of plain keys and values that is bound once, never stored into and only looked at as a whole (`for k in D`, `D.keys()`,
     `D.values()`, `D.items()`, `len(D)`) is the tuples it holds:  `[p.value for p in D]` -> `[p.value for p in (k1, ..)]`,  `list(D.values())` -> `list((v1, ..))`."""
@@ -806,6 +845,9 @@ def _local_dict_views(f: Func) -> Func:
                 stores[x.id] = stores.get(x.id, 0) + 1
         if any(stores.get(r, 0) > (0 if r in f.params() else 1) for r in roots):
             continue
+        chains_ = {norm.U(e) for e in list(d.value.keys) + list(d.value.values) if isinstance(e, ast.Attribute)}
+        if any(isinstance(x, ast.Attribute) and isinstance(x.ctx, (ast.Store, ast.Del)) and any(c_ == norm.U(x) or c_.startswith(norm.U(x) + ".") for c_ in chains_) for x in own_nodes(f.node)):
+            continue          # an attribute the display reads is bound again in this function: the display holds the old object
         order = source_order(f.node)
         plan = []
         ok = True
@@ -825,6 +867,11 @@ def _local_dict_views(f: Func) -> Func:
                 plan.append((n, "keys"))
             elif isinstance(p_, ast.Call) and norm.is_name(p_.func, "len") and len(p_.args) == 1:
                 plan.append((p_, "len"))
+            elif isinstance(p_, ast.Subscript) and p_.value is n and isinstance(p_.ctx, ast.Load) and norm.U(p_.slice) in [norm.U(k) for k in d.value.keys]:
+                plan.append((p_, "index"))           # D[k_i]  ->  v_i
+            elif isinstance(p_, ast.Attribute) and p_.value is n and p_.attr == "get" and isinstance(parent(p_), ast.Call) and parent(p_).func is p_ and len(parent(p_).args) == 1 \
+                    and not parent(p_).keywords and _dispatch_site(f, parent(p_)) is not None:
+                plan.append((parent(p_), "dispatch"))      # w = D.get(E); if w is not None: BODY(w)   ->   if E == k1: BODY(v1) elif ...
             else:
                 ok = False
                 break
@@ -841,6 +888,27 @@ def _local_dict_views(f: Func) -> Func:
                 new = ast.Tuple(elts=[norm.clone(v) for v in cd.value.values], ctx=ast.Load())
             elif kind == "items":
                 new = ast.Tuple(elts=[ast.Tuple(elts=[norm.clone(k), norm.clone(v)], ctx=ast.Load()) for k, v in zip(cd.value.keys, cd.value.values)], ctx=ast.Load())
+            elif kind == "index":
+                j_ = [norm.U(k) for k in cd.value.keys].index(norm.U(tgt.slice))
+                new = norm.clone(cd.value.values[j_])
+            elif kind == "dispatch":
+                asg, guard = _dispatch_site(Func(f.mod, f.qual, node, f.cls), tgt, parents_from=node)
+                w = asg.targets[0].id
+                E = tgt.args[0]
+                chain: List[ast.stmt] = []
+                for k_, v_ in reversed(list(zip(cd.value.keys, cd.value.values))):
+                    body_ = [norm.Subst({w: v_}).visit(norm.clone(b_)) for b_ in guard.body]
+                    test_ = ast.Compare(left=norm.clone(E), ops=[ast.Eq()], comparators=[norm.clone(k_)])
+                    chain = [ast.copy_location(ast.If(test=test_, body=body_, orelse=chain), guard)]
+                holder = None
+                for o_ in ast.walk(node):
+                    for _fld, blk_ in _block_lists(o_):
+                        if any(x is asg for x in blk_):
+                            holder = blk_
+                i_ = [q_ for q_, x in enumerate(holder) if x is asg][0]
+                holder[i_:i_ + 2] = chain
+                ast.fix_missing_locations(node)
+                continue
             else:
                 new = ast.Constant(value=len(cd.value.keys))
             keep = {k2: getattr(tgt, k2) for k2 in ("lineno", "col_offset", "end_lineno", "end_col_offset") if hasattr(tgt, k2)}
@@ -1020,6 +1088,8 @@ def _fold_literals(P: Program, f: Func) -> Func:
             interesting = True
         if isinstance(x, ast.Compare) and len(x.ops) == 1 and isinstance(x.ops[0], (ast.Is, ast.IsNot)) and _scalar_literal(x.left) and _scalar_literal(x.comparators[0]):
             interesting = True
+        if isinstance(x, ast.Compare) and len(x.ops) == 1 and isinstance(x.ops[0], (ast.In, ast.NotIn)) and isinstance(x.left, ast.Constant):
+            interesting = True
         if isinstance(x, ast.Call) and isinstance(x.func, ast.Name) and x.func.id in ("list", "tuple") and len(x.args) == 1 and isinstance(x.args[0], (ast.Tuple, ast.List, ast.Attribute)):
             interesting = True
     from .erase import records as _records
@@ -1059,10 +1129,23 @@ def _fold_literals(P: Program, f: Func) -> Func:
         def visit_Compare(self, n):
             nonlocal changed
             self.generic_visit(n)
+            if len(n.ops) == 1 and isinstance(n.ops[0], (ast.In, ast.NotIn)) and isinstance(n.left, ast.Constant) and isinstance(n.left.value, str) \
+                    and isinstance(n.comparators[0], (ast.Tuple, ast.List, ast.Set)) and all(isinstance(e_, ast.Constant) and isinstance(e_.value, str) for e_ in n.comparators[0].elts):
+                inside = n.left.value in [e_.value for e_ in n.comparators[0].elts]
+                changed = True
+                return ast.copy_location(ast.Constant(value=(inside if isinstance(n.ops[0], ast.In) else not inside)), n)      # 'a' in ('a', 'b')
             if len(n.ops) == 1 and isinstance(n.ops[0], (ast.Is, ast.IsNot)) and _scalar_literal(n.left) and isinstance(n.comparators[0], ast.Constant) and n.comparators[0].value is None:
                 is_none = isinstance(n.left, ast.Constant) and n.left.value is None
                 changed = True
                 return ast.copy_location(ast.Constant(value=(is_none if isinstance(n.ops[0], ast.Is) else not is_none)), n)     # `-1 is not None` (a default written in)
+            return n
+
+        def visit_IfExp(self, n):
+            nonlocal changed
+            self.generic_visit(n)
+            if isinstance(n.test, ast.Constant) and isinstance(n.test.value, bool):
+                changed = True
+                return n.body if n.test.value else n.orelse
             return n
 
         def visit_BoolOp(self, n):
@@ -1085,6 +1168,8 @@ def _fold_literals(P: Program, f: Func) -> Func:
                 return ast.copy_location(ast.Constant(value=not absorbing), n)
             if len(out) == 1:
                 return out[0]
+            if isinstance(out[-1], ast.Constant) and out[-1].value is absorbing and not any(isinstance(x, (ast.Call, ast.Await, ast.NamedExpr)) for v in out[:-1] for x in ast.walk(v)):
+                return out[-1]         # `x is None and False`: nothing observable is evaluated on the way to the constant
             n.values = out
             return n
 
@@ -1557,6 +1642,7 @@ def inline_helpers(P: Program, f: Func, depth: int = 2) -> Func:
         v = _local_dict_views(v)                     # a local dict display that is only looked at as a whole is the tuples of its keys / values
         v = _fold_literals(P, v)                     # Cls._fields, list(<literal>), comprehension over a literal tuple, class-level literals: written out
         v = inline_predicates(P, v)                  # side-effect-free one-expression helpers, wherever they are called (loop tests, arguments, ...)
+        v = _fold_literals(P, v)                     # ... and what became constant through them
         v = erase(P, v)                              # local records (NamedTuples) written back as tuples / separate locals
         v = _propagate_literals(_plain_assignments(v))
         hit = (P, f0.node, dealias(_loop_field_aliases(_index_loops(_genexp_loops(v))), subscripts=False))
@@ -1681,6 +1767,16 @@ def _has_loop_jump(stmts: List[ast.stmt]) -> bool:
 
 
 def _search_result_flow(f: Func) -> Func:
+    """to a fixed point (a copy that is coalesced can bring a search result next to its guard)"""
+    for _ in range(3):
+        g = _search_result_flow_once(f)
+        if g is f or ast.dump(g.node) == ast.dump(f.node):
+            return g
+        f = g
+    return f
+
+
+def _search_result_flow_once(f: Func) -> Func:
     """What an Optional-returning search helper leaves behind once it is looked through:
 
         while ..:                                   while ..:
@@ -1907,7 +2003,8 @@ def _search_result_flow(f: Func) -> Func:
                     k += len(new)
                     continue
                 k += 1
-    if not changed:
+    if not changed and not any(isinstance(n, ast.Assign) and len(n.targets) == 1 and isinstance(n.targets[0], ast.Name) and isinstance(n.value, ast.Name) and "__i" in n.value.id
+                               for n in ast.walk(node)):
         return f
     # copies of helper locals:  x = h__iN   (x bound nowhere else, every load of x after the copy)  ->  h__iN is x
     ast.fix_missing_locations(node)
@@ -2669,7 +2766,7 @@ def _inline_helpers(P: Program, f: Func, depth: int = 2) -> Func:
                         val_target = st.target.elts[1]
                         it = it.args[0]
                 tgen = _inlinable(P, f, it, allow_yield=True) if isinstance(it, ast.Call) else None
-                body_ok = not any(isinstance(x, (ast.Break, ast.Continue, ast.Return)) for b in st.body for x in ast.walk(b) if not isinstance(x, (ast.FunctionDef, ast.Lambda)))
+                body_ok = not _has_loop_jump(st.body)      # no break / continue of the loop itself (a `return` leaves the function either way: the generator is dropped)
                 if tgen is not None and body_ok and (enum_start is not None or st.target is val_target) \
                         and not any(isinstance(x, ast.YieldFrom) or (isinstance(x, ast.Yield) and not isinstance(parent(x), ast.Expr)) for x in own_nodes(tgen.node)):
                     counter[0] += 1
@@ -2895,6 +2992,33 @@ def desugar_extend(f: Func, lists: bool = False) -> Func:
 _PRED_CACHE: Dict = {}
 
 
+def _body_as_expression(body: List[ast.stmt]) -> Optional[ast.expr]:
+    """`(name = <pure expr>)*  (if c: return a)*  return b`  as the one expression it computes:  `a if c else b`  with the locals written out.
+    Only for side-effect-free right-hand sides (they are duplicated)."""
+    loc: Dict[str, ast.expr] = {}
+    i = 0
+    while i < len(body) and isinstance(body[i], ast.Assign) and len(body[i].targets) == 1 and isinstance(body[i].targets[0], ast.Name) and body[i].targets[0].id not in loc:
+        v = norm.subst(body[i].value, loc)
+        if any(isinstance(x, ast.Call) and not (_pure_call(x) or norm.call_name(x) == "getattr") for x in ast.walk(v)):
+            return None
+        loc[body[i].targets[0].id] = v
+        i += 1
+    rest = body[i:]
+    if not rest or not isinstance(rest[-1], ast.Return) or rest[-1].value is None:
+        return None
+    out = norm.subst(rest[-1].value, loc)
+    for g_ in reversed(rest[:-1]):
+        if not (isinstance(g_, ast.If) and not g_.orelse and len(g_.body) == 1 and isinstance(g_.body[0], ast.Return) and g_.body[0].value is not None):
+            return None
+        t_ = norm.subst(g_.test, loc)
+        if any(isinstance(x, ast.Call) and not (_pure_call(x) or norm.call_name(x) == "getattr") for x in ast.walk(t_)):
+            return None
+        out = ast.copy_location(ast.IfExp(test=t_, body=norm.subst(g_.body[0].value, loc), orelse=out), g_)
+    if not loc and len(rest) == 1:
+        return None
+    return ast.fix_missing_locations(out)
+
+
 def inline_predicates(P: Program, f: Func, depth: int = 2) -> Func:
     """A copy of f in which calls of private, side-effect-free helpers of the same class / module whose body is a single
     `return <expr>` are replaced by that expression (parameters -> arguments, comprehension variables renamed apart)."""
@@ -2915,8 +3039,11 @@ def inline_predicates(P: Program, f: Func, depth: int = 2) -> Func:
                 return c
             body = [s for s in target.node.body if not (isinstance(s, ast.Expr) and isinstance(s.value, ast.Constant)) and not isinstance(s, ast.Pass)]
             if len(body) != 1 or not isinstance(body[0], ast.Return) or body[0].value is None:
-                return c
-            e = body[0].value
+                e = _body_as_expression(body)
+                if e is None:
+                    return c
+            else:
+                e = body[0].value
             if any(isinstance(x, (ast.Yield, ast.YieldFrom, ast.Await, ast.NamedExpr, ast.Lambda)) for x in ast.walk(e)):
                 return c
             impure = any(isinstance(x, ast.Call) and not _pure_call(x) for x in ast.walk(e))
@@ -3272,8 +3399,9 @@ def class_constants(P: Program, f: Func) -> Dict[str, ast.expr]:
                         cnt[x.id] = cnt.get(x.id, 0) + 1
     pinned = pinned_constant_names()
     for st in body:
+        flds_ = _record_fields(P, st.value) if isinstance(st, ast.Assign) and len(st.targets) == 1 and isinstance(st.targets[0], ast.Name) else None
         if isinstance(st, ast.Assign) and len(st.targets) == 1 and isinstance(st.targets[0], ast.Name) and cnt.get(st.targets[0].id) == 1 \
-                and isinstance(st.value, (ast.Tuple, ast.Constant, ast.UnaryOp, ast.Call)) and _literal(st.value, recs) and st.targets[0].id not in pinned:
+                and ((isinstance(st.value, (ast.Tuple, ast.Constant, ast.UnaryOp, ast.Call)) and _literal(st.value, recs)) or flds_ is not None) and st.targets[0].id not in pinned:
             nm = st.targets[0].id
             stored = False
             for m in P.real_modules():
@@ -3283,9 +3411,10 @@ def class_constants(P: Program, f: Func) -> Dict[str, ast.expr]:
                     if isinstance(x, ast.Call) and isinstance(x.func, ast.Name) and x.func.id in ("setattr", "delattr"):
                         stored = True
             if not stored:
-                out[f"self.{nm}"] = st.value
-                out[f"{f.cls}.{nm}"] = st.value
-                out[f"cls.{nm}"] = st.value
+                val_ = flds_ if flds_ is not None else st.value
+                out[f"self.{nm}"] = val_
+                out[f"{f.cls}.{nm}"] = val_
+                out[f"cls.{nm}"] = val_
     _CLSCONST_CACHE[k] = (P, out)
     return out
 
